@@ -308,8 +308,8 @@ def classify_arr(info, out):
 WAVE_WITNESS = [("S",), ("S",), ("T", "U0"), ("C", 0), ("T", "M0"), ("S",)]   # A,B; drain+exit; A done; C while B runs
 
 
-def execute_waves(key, info, njobs, kind, actions, rng=None, nrandom=0):
-    winfo = dict(info, waves=True)
+def execute_waves(key, info, njobs, kind, actions, rng=None, nrandom=0, park=False):
+    winfo = dict(info, waves=True, park=park)
     out = Outcome(key, njobs, kind, [])
     out.macro = []      # (action, observation after it)
     out.stuck = False
@@ -324,6 +324,17 @@ def execute_waves(key, info, njobs, kind, actions, rng=None, nrandom=0):
             status, o = run.step(name)
             out.history.append((name, status, o))
             return status
+
+        def park_step(name):
+            """("P", monitor): run the monitor up to its next CLI / cloud call (or to its loop guard)."""
+            rec = run.det.recs[name]
+            for _ in range(60):
+                if not live(name):
+                    break
+                st = step(name)
+                if st == "blocked" or rec.status == "done" or rec.pos[0] in ("cloud", "lock") \
+                        or (rec.pos[0] == "line" and rec.pos[1] in guard):
+                    break
 
         def phase(name):
             rec = run.det.recs[name]
@@ -347,13 +358,18 @@ def execute_waves(key, info, njobs, kind, actions, rng=None, nrandom=0):
                 if not live(a[1]):
                     return False
                 phase(a[1])
+            elif a[0] == "P":
+                if not live(a[1]):
+                    return False
+                park_step(a[1])
             else:
                 o = run.ad.observe()
                 if a[1] in run.ad.finished or a[1] not in o["tracked"]:
                     return False
                 run.ad.complete(a[1])
             out.macro.append((a, run.ad.observe()))
-            out.sched.append("S" if a[0] == "S" else a[1] if a[0] == "T" else f"complete({a[1]})")
+            out.sched.append("S" if a[0] == "S" else a[1] if a[0] == "T" else f"park({a[1]})" if a[0] == "P"
+                             else f"complete({a[1]})")
             return True
 
         for a in actions:
@@ -361,6 +377,8 @@ def execute_waves(key, info, njobs, kind, actions, rng=None, nrandom=0):
         for _ in range(nrandom):
             o = run.ad.observe()
             cands = [("T", n) for n in run.threads() if n != "S"]
+            if park:
+                cands += [("P", n) for n in run.threads() if n[0] == "M"] * 3
             cands += [("C", j) for j in o["tracked"] if j not in run.ad.finished]
             if live("S"):
                 cands += [("S",)] * 2
@@ -384,6 +402,7 @@ def execute_waves(key, info, njobs, kind, actions, rng=None, nrandom=0):
         out.done = run.done()
         out.live = run.threads()
         out.final = run.ad.observe()
+        out.errors = list(run.ad.sched.errors)
     except Exception as e:  # noqa: BLE001
         out.error = repr(e)
         out.final = run.ad.observe() if run.ad.ex is not None else None
@@ -401,7 +420,10 @@ def classify_waves(info, out):
     if len(set(rep)) != len(rep):
         return f"{cls}:reported-twice", f"a job was reported to the scheduler twice: {rep}"
     if o["err"]:
-        return f"{cls}:monitor-error", "a thread raised and called reject_job(None, error)"
+        lost = [j for j in range(out.njobs) if j not in rep]
+        return (f"{cls}:job-less-scheduler-error",
+                f"a monitor thread raised and reported reject_job(None, error) ({getattr(out, 'errors', [])}); "
+                f"job(s) {lost} never reported; final state {o}")
     lost = [j for j in range(out.njobs) if j not in rep]
     if lost and (out.done or out.stuck):
         where = sorted({("tracked" if j in o["tracked"] else "queue" if j in o["queue"] else "vanished") for j in lost})
@@ -435,7 +457,9 @@ class Check(PropertyCheck):
                 "C10_counter_locked_never_loses", "C10_arrayer_armed", "C10_arrayer_all_submitted",
                 "C10_arrayer_refuted_clear_in_stop", "C10_arrayer_shipped_never_loses",
                 "C10_glue_queue_has_submitter", "C10_glue_waves_progress", "C10_glue_waves_quiescent",
-                "C10_glue_refuted_early_return", "C10_glue_shipped_not_stuck"]
+                "C10_glue_refuted_early_return", "C10_glue_shipped_not_stuck",
+                "C10_walk_snapshot_exactly_once", "C10_walk_snapshot_progress", "C10_walk_refuted_live",
+                "C10_walk_snapshot_never_loses"]
     extra_modules = ["Model.Monitor"]
     allowed_axioms = []
     section_premises = []
@@ -469,6 +493,11 @@ class Check(PropertyCheck):
         except astutil.TranslateError as e:
             raise TranslateError(str(e))
         self.info = info
+        if info["_errors"]:
+            # A rejected shape is a broken obligation; the scheduling points of everything that was recognised
+            # are kept, so correspondence (for the recognised executors) and the whole search still run.
+            self.ob("translator", "C10 translator: every anchored function has a recognised shape / pinned shape",
+                    False, "\n".join(info["_errors"]))
         GEN.mkdir(exist_ok=True)
         p = GEN / "C10Gen.v"
         p.write_text(text + "\n")
@@ -536,6 +565,16 @@ class Check(PropertyCheck):
             for i in range(nrand):
                 outs.append(execute_waves(key, info, self.rng.choice([2, 3, 3, 4]), "waves-random", [], rng=self.rng,
                                           nrandom=self.rng.choice([5, 10, 20])))
+            # a submit landing while the monitor is parked inside its status collection (fake CLI / cloud call):
+            # every park position of the first monitor iteration x which runs have finished
+            hand = [("T", "U0")] if key == "aws_glue" else []
+            for fin in ([], [0], [0, 1]):
+                for k in range(0, 6 if self.tier == "quick" else 10):
+                    acts = [("S",), ("S",)] + hand + [("C", j) for j in fin] + [("P", "M0")] * k + [("S",)]
+                    outs.append(execute_waves(key, info, 3, "park-sweep", acts, park=True))
+            for i in range(4 if self.tier == "quick" else 80):
+                outs.append(execute_waves(key, info, self.rng.choice([3, 4]), "park-random", [], rng=self.rng,
+                                          nrandom=self.rng.choice([10, 20, 30]), park=True))
         self.wave_outs = outs
         return outs
 
@@ -586,8 +625,8 @@ class Check(PropertyCheck):
         outs = self.executions()
         terms, used = [], []
         for o in outs:
-            if o.error:
-                continue
+            if o.error or self.info[o.key]["errors"]:
+                continue        # no gen_<key> for an executor whose shape was rejected (obligation already broken)
             terms.append(o.coq_term())
             used.append(o)
             sig = (o.key, o.njobs, tuple(o.sched))
@@ -683,9 +722,16 @@ class Check(PropertyCheck):
                                              {"kind": "waves", "executor": o.key, "njobs": o.njobs,
                                               "actions": [list(a) for a, _ in o.macro], "history": o.sched,
                                               "final": o.final, "expect": c[0]}))
+        for key in KEYS:
+            if self.info[key].get("walk") == "Live":
+                sw = [o for o in waves if o.key == key and o.kind == "park-sweep"]
+                hit = [o for o in sw if (classify_waves(self.info[key], o) or ("",))[0].endswith("job-less-scheduler-error")]
+                self.ob("correspondence", f"the witness of C10_walk_refuted_live (submit while the monitor walks the live "
+                        f"pending map) reproduces on the real {self.info[key]['cls']}", bool(hit),
+                        f"{len(sw)} park-sweep histories, none ended with a job-less scheduler error")
         gv = self.info.get("_glue_start")
         if gv:
-            gl = [o for o in waves if o.key == "aws_glue" and not o.error]
+            gl = [o for o in waves if o.key == "aws_glue" and not o.error and not o.kind.startswith("park")]
             terms = [f"gcheck gen_glue_start (ginit {cq_nl(range(o.njobs))}) "
                      f"[{'; '.join(f'({cq_gact(a)}, {cq_gobs(ob)})' for a, ob in o.macro)}]" for o in gl]
             ok, failing, diags = run_bool_cases("C10W", ["Model.GlueWaves", "Gen.C10Gen"], "", terms, chunk=60)
